@@ -293,17 +293,21 @@ fn va_prog_step(cur: u64, op: u64, arg: u64) -> Option<u64> {
             4 => c.align_up(arg).as_u64(),
             5 => c.align_down(arg).as_u64(),
             6 => {
+                // the compound operators on their own: a check hidden behind `c + arg` would mask a missing one
                 let mut x = c;
                 x += arg;
-                assert!(x == c + arg);
                 x.as_u64()
             }
             7 => {
                 let mut x = c;
                 x -= arg;
-                assert!(x == c - arg);
                 x.as_u64()
             }
+            16 => (c + arg).as_u64(),
+            17 => (c - arg).as_u64(),
+            18 => VirtAddr::from_ptr(arg as *const u8).as_u64(),
+            19 => Page::from_page_table_indices_1gib(c.p4_index(), PageTableIndex::new_truncate(arg as u16)).start_address().as_u64(),
+            20 => Page::from_page_table_indices_2mib(c.p4_index(), c.p3_index(), PageTableIndex::new_truncate(arg as u16)).start_address().as_u64(),
             8 => keep(Step::forward_checked(c, arg as usize)),
             9 => keep(Step::backward_checked(c, arg as usize)),
             10 => (Page::<Size4KiB>::containing_address(c) + arg).start_address().as_u64(),
@@ -342,15 +346,15 @@ fn pa_prog_step(cur: u64, op: u64, arg: u64) -> Option<u64> {
             6 => {
                 let mut x = c;
                 x += arg;
-                assert!(x == c + arg);
                 x.as_u64()
             }
             7 => {
                 let mut x = c;
                 x -= arg;
-                assert!(x == c - arg);
                 x.as_u64()
             }
+            11 => (c + arg).as_u64(),
+            12 => (c - arg).as_u64(),
             8 => (PhysFrame::<Size4KiB>::containing_address(c) + arg).start_address().as_u64(),
             9 => (PhysFrame::<Size2MiB>::containing_address(c) - arg).start_address().as_u64(),
             10 => pte_addr(arg).unwrap(),
